@@ -305,8 +305,9 @@ def _expr_pass(repo, finfo, fn, keep, used) -> bool:
     return changed
 
 
-def expand(repo, finfo, keep=(), depth=3):
-    """(function node with helpers inlined, [helper FuncInfo]) - the original node when nothing is inlinable."""
+def expand(repo, finfo, keep=(), depth=3, pre=None):
+    """(function node with helpers inlined, [helper FuncInfo]) - the original node when nothing is inlinable.
+    pre: optional rewriting applied to the working copy before each round (sa.normal puts tails into branches)."""
     keep = set(keep)
     fn = finfo.node
     used = []
@@ -341,6 +342,8 @@ def expand(repo, finfo, keep=(), depth=3):
             return out
 
         candidate = _copy_node(fn)
+        if pre is not None and pre(candidate):
+            changed = True
         candidate.body = rewrite(candidate.body)
         if _expr_pass(repo, finfo, candidate, keep, used):
             changed = True
